@@ -1,18 +1,28 @@
 ------------------------------ MODULE DagUniverse ------------------------------
-(* The finite universe of directory trees used by phase M and by the case generator. *)
-EXTENDS DagTrees
-CONSTANTS Names, LeafIds, MaxDepth
+(* The finite universe of directory trees used by phase M and by the case generator.
+   DirIds = data ids a directory may carry (its own Data: plain, or with metadata), LeafIds = leaf
+   payloads.  A directory of ANY DirId may be empty or populated, at the root or nested.
+   The universe can be cut into NShards slices of source trees (Shard = which one) so that a tier
+   that cannot afford all pairs takes a seed-chosen slice; NShards = 1 is the whole universe. *)
+EXTENDS DagTrees, SequencesExt
+CONSTANTS Names, LeafIds, DirIds, MaxDepth, NShards, Shard
 
 RECURSIVE PathsUpTo(_)
 PathsUpTo(n) == IF n = 0 THEN {<<>>} ELSE PathsUpTo(n - 1) \cup {Append(p, x) : p \in {q \in PathsUpTo(n - 1) : Len(q) = n - 1}, x \in Names}
 Paths == PathsUpTo(MaxDepth)
-DirTrees == {T \in UNION {[S -> {0} \cup LeafIds] : S \in SUBSET Paths} : IsDirTree(T)}
+Data == DirIds \cup LeafIds
+DirTrees == {T \in UNION {[S -> Data] : S \in SUBSET Paths} : IsDirTree(T, DirIds)}
 \* subtrees that fit at a path of length n: any root data, directory-shaped below
-SubTreesAt(n) == {T \in UNION {[S -> {0} \cup LeafIds] : S \in SUBSET PathsUpTo(MaxDepth - n)} :
-                    IsTree(T) /\ \A p \in DOMAIN T : T[p] # 0 => Linkless(T, p)}
+SubTreesAt(n) == {T \in UNION {[S -> Data] : S \in SUBSET PathsUpTo(MaxDepth - n)} : IsTree(T) /\ DirShaped(T, DirIds)}
 \* evaluated once (TLC caches constant definitions without parameters)
 SubTreesTab == [n \in 0..MaxDepth |-> SubTreesAt(n)]
-Slots(T) == {p \in Paths : p # <<>> /\ Parent(p) \in DOMAIN T /\ T[Parent(p)] = 0}
+Slots(T) == {p \in Paths : p # <<>> /\ Parent(p) \in DOMAIN T /\ T[Parent(p)] \in DirIds}
+\* one edit: remove an entry; put any leaf / empty directory / directory subtree (of any directory data) at a
+\* free or occupied slot; change the own data of a directory -- the ROOT included -- keeping its entries
 Edits(T) == {Prune(T, p) : p \in DOMAIN T \ {<<>>}} \cup
-            UNION {{Graft(T, p, S) : S \in SubTreesTab[Len(p)]} : p \in Slots(T)}
+            UNION {{Graft(T, p, S) : S \in SubTreesTab[Len(p)]} : p \in Slots(T)} \cup
+            UNION {{SetData(T, p, d) : d \in DirIds \ {T[p]}} : p \in {q \in DOMAIN T : T[q] \in DirIds}}
+\* the slice of source trees (TLC's SetToSeq order is deterministic)
+Sources == IF NShards = 1 THEN DirTrees
+           ELSE LET s == SetToSeq(DirTrees) IN {s[i] : i \in {j \in 1..Len(s) : j % NShards = Shard}}
 =============================================================================
